@@ -193,16 +193,45 @@ func decodeOnce(kind string, b []byte) (canon string, reenc string) {
 			return "err", ""
 		}
 		canon = "ok " + showBrList(q.List)
-		_ = q.String() // must not crash on a successfully decoded value
-		e, err := q.MarshalBinary()
-		if err != nil {
-			return canon, "reencode-error"
+		// roaring's FromBuffer does not validate what it reads (its documentation says to call Validate after
+		// deserialising untrusted data); zoekt does not. A structurally invalid bitmap is reported as such.
+		for _, br := range q.List {
+			invalid := false
+			func() {
+				defer func() {
+					if recover() != nil {
+						invalid = true
+					}
+				}()
+				if br.Repos == nil || br.Repos.Validate() != nil {
+					invalid = true
+				}
+			}()
+			if invalid {
+				return canon, "invalid-roaring"
+			}
 		}
-		var q2 query.BranchesRepos
-		if err := q2.UnmarshalBinary(e); err != nil || "ok "+showBrList(q2.List) != canon {
-			return canon, "reencode-differs"
-		}
-		return canon, "ok"
+		// the decoded value must be usable: it prints, re-encodes and decodes to itself
+		func() {
+			defer func() {
+				if r := recover(); r != nil {
+					reenc = "use-panics"
+				}
+			}()
+			_ = q.String()
+			e, err := q.MarshalBinary()
+			if err != nil {
+				reenc = "reencode-error"
+				return
+			}
+			var q2 query.BranchesRepos
+			if err := q2.UnmarshalBinary(e); err != nil || "ok "+showBrList(q2.List) != canon {
+				reenc = "reencode-differs"
+				return
+			}
+			reenc = "ok"
+		}()
+		return canon, reenc
 	case "rm":
 		var q zoekt.ReposMap
 		if err := q.UnmarshalBinary(b); err != nil {
@@ -444,6 +473,9 @@ func decodeCase(w *gen.Writer, kind string, b []byte, class string, known ...[]b
 	case r.cls != "done":
 		c.Go = fmt.Sprintf("decoder did not return: %s (%s)", r.cls, r.msg)
 		c.Key = "decode-not-total:" + kindName[kind] + ":" + r.cls
+	case r.reenc == "invalid-roaring":
+		c.Go = "decoder returned a structurally invalid roaring bitmap with a nil error (roaring.Validate rejects it)"
+		c.Key = "decoded-value-unusable:" + kindName[kind] + ":roaring-not-validated"
 	case r.reenc != "-" && r.reenc != "ok":
 		c.Go = "decoded value is not usable: " + r.reenc
 		c.Key = "decoded-value-unusable:" + kindName[kind]
